@@ -108,11 +108,12 @@ def epochFailures (b : Nat) (batches : Option Nat) (perm : List Nat) (file : Lis
     (if permOK data got then [] else [if batches.isSome then "truncation" else "row-lost-or-duplicated"])
    else ["misaligned-fields"])
 
-/-- one operation of a session on one dataset object: `mk` | `n<j>` | `f<n>` -/
+/-- one operation of a session on one dataset object: `mk` | `n<j>` | `f<n>` | `c<j>` -/
 def parseSessOp (t : String) : Option SessOp :=
   if t = "mk" then some .mk
   else if t.startsWith "n" then (t.drop 1).toNat?.map .next
   else if t.startsWith "f" then (t.drop 1).toNat?.map .ff
+  else if t.startsWith "c" then (t.drop 1).toNat?.map .close
   else none
 
 def showSessOut : SessOut String → String
